@@ -50,7 +50,7 @@ CHECKS = {
                 "memory. Equality with a reference cache's hit sequence is history-dependent and not decided.",
         "ref": "DESIGN.md section 2, C09",
         "note": "Trusted: ast, path enumeration (uncorrelated tests only add paths).",
-        "technique": "static analysis: statistic updates as normal-form stores with truth-function conditions (helpers inlined) + who-may-write + call-site enumeration + reference comparison of the cache lookups and the set's hit decision on dataflow normal forms + MEM stage datapath (memory_access exactly once) + who-may-write of the performance-metrics binding (R09.metrics)",
+        "technique": "static analysis: statistic updates as normal-form stores with truth-function conditions (helpers inlined) + who-may-write + call-site enumeration + reference comparison of the cache lookups and the set's hit decision on dataflow normal forms + MEM stage datapath (memory_access exactly once) + who-may-write of the performance-metrics binding (R09.metrics) + reset completeness of the data cache (R09.reset)",
     },
     "C10": {
         "text": "Only the coupling and self-consistency clauses: the set notifies the policy on every hit and "
@@ -91,7 +91,7 @@ CHECKS = {
                 "completeness of the four reset() methods. State equality of run vs step is not claimed by value.",
         "ref": "DESIGN.md section 2, C13",
         "note": "Trusted: ast, sa.effects, sa.paths. Wall-clock fields are a tabled exemption.",
-        "technique": "static analysis: effect analysis + guard dominance with summaries + reset-completeness",
+        "technique": "static analysis: effect analysis + guard dominance with summaries + reset-completeness + fresh parser per load / constructor-state completeness of parse() (R13.fresh)",
     },
     "C20": {
         "text": "Decides the sequencing clauses: in both half-steps the is_done() return and the next_cycle test "
@@ -142,7 +142,7 @@ CHECKS = {
                 "Label addresses by value for arbitrary programs are not enumerated.",
         "ref": "DESIGN.md section 2, C04",
         "note": "Trusted: ast, sa.ppgram model of the pyparsing subset, sa.align.",
-        "technique": "static analysis: grammar IR from AST + template alignment + table agreement + truth functions of the two address passes per entry kind (per-path substitution) + bit-slice evaluation of the lui/addi split + reference comparisons + tokeniser clause (R04.tok: every line tokenised by the parser's own grammar)",
+        "technique": "static analysis: grammar IR from AST + template alignment + table agreement + truth functions of the two address passes per entry kind (per-path substitution) + bit-slice evaluation of the lui/addi split + reference comparisons + tokeniser clause (R04.tok: every line tokenised by the parser's own grammar) + who-may-call: every parse() runs on a parser constructed for that load, or parse() re-initialises the constructor state (R04.fresh)",
     },
     "C05": {
         "text": "Decides the layout table row by row (element size recorded for name[i], stride, writer, cast per "
@@ -228,7 +228,7 @@ CHECKS = {
                 "over all 2^16 words without enumerating them; assembler placement rules as shapes.",
         "ref": "DESIGN.md section 2, C19",
         "note": "Trusted: ast, consteval, bitslice.",
-        "technique": "static analysis: table agreement + bit-slice abstract interpretation (fields, decode per opcode) + truth functions of the label pass per entry kind + tokeniser clause (R19.tok) + operand conversion read off the normal form under the 0x / non-0x assumption",
+        "technique": "static analysis: table agreement + bit-slice abstract interpretation (fields, decode per opcode) + truth functions of the label pass per entry kind + tokeniser clause (R19.tok) + operand conversion read off the normal form under the 0x / non-0x assumption + who-may-call: every parse() runs on a parser constructed for that load, or parse() re-initialises the constructor state (R19.fresh)",
     },
 }
 
